@@ -38,6 +38,9 @@ EXPLANATION += " (R6) order and signs of every format's convention table equal t
 TECHNIQUE += '; evaluated coefficient path and overlap tail borrowed from C01 / C06'
 EXPLANATION += ' Added: (R8, R9) the evaluated clauses C01-R4 / C01-R9 (written coefficient rows are signs[r] x rows[permutation[r]]); (R10) the tail of compute_overlap evaluated on a symbolic matrix (C06-R3): returned[i, j] = s_row[i] s_col[j] internal[p_row[i], p_col[j]], signs applied after the rows were moved. R5 accepts an index built from the permutation (np.ix_, take); R1 / R3 evaluate PRIMITIVE_NAMES, ANGMOM_CHARS, angmom_sti / angmom_its and the default of `reverse`.'
 # --- end metadata batch 7
+# --- metadata added for batch 8
+EXPLANATION += ' R3 evaluates the shell conversion with every true / false flag value (`np.True_`, `np.False_`, 1, 0), not only the two singletons.'
+# --- end metadata batch 8
 
 
 def run(ctx):
